@@ -291,12 +291,12 @@ class Writer:
         if t.kind == 'quoted':
             return f'"{t.text}"'
         if t.kind == 'dotted':
-            a, b = t.text.split('.')
+            a, _, b = t.text.partition('.')
             return self.ident(a) + '.' + self.ident(b)
         if t.kind == 'array':
             return self.ident(t.text[:-2]) + '[]'
         if t.kind == 'args':
-            base, rest = t.text.split('(', 1)
+            base, _, rest = t.text.partition('(')
             return self.ident(base) + '(' + rest
         return self.ident(t.text)
 
